@@ -221,6 +221,12 @@ func (c *Conn) readLoop(ctx context.Context) (header, error) {
 }
 
 func (c *Conn) readFrameHeader(ctx context.Context) (header, error) {
+	if c.closeReceived {
+		// Nothing follows the peer's close frame and the connection is being closed
+		// by whoever read it.
+		return header{}, net.ErrClosed
+	}
+
 	select {
 	case <-c.closed:
 		return header{}, net.ErrClosed
@@ -329,6 +335,7 @@ func (c *Conn) handleControl(ctx context.Context, h header) (err error) {
 
 	err = fmt.Errorf("received close frame: %w", ce)
 	c.writeClose(ce.Code, ce.Reason)
+	c.closeReceived = true
 	c.readMu.unlock()
 	c.close()
 	return err
